@@ -90,6 +90,7 @@ static void decode_spec(struct tape *t, struct gm_spec *g)
 	g->dest_mode = (uint8_t)t_choice(t, 5);
 	g->payload_mode = (uint8_t)t_choice(t, 4);
 	g->n_rules = (uint8_t)(2 + t_choice(t, 7));
+	g->hb_scale = (uint8_t[]){1, 1, 20, 100, 1, 7}[t_choice(t, 6)];
 	for(unsigned r = 0; r < g->n_rules; r++) {
 		struct gm_rule *ru = &g->rules[r];
 		ru->n_act = (uint8_t)(1 + t_choice(t, 4));
@@ -148,7 +149,7 @@ static void decode_cfg(struct tape *t, struct rt_cfg *c, const struct gm_spec *g
 {
 	memset(c, 0, sizeof *c);
 	int c10 = !strcmp(PROP, "C10"), c07 = !strcmp(PROP, "C07"), c08 = !strcmp(PROP, "C08");
-	c->serial = c10 ? 1 : 0;
+	c->serial = c10 ? 1 : (!strcmp(PROP, "C20") && t_prob(t, 30));
 	c->n_threads = 1 + (1 + t_choice(t, 8)) % 8; /* exhausted tape: 2 threads */
 	if(t_prob(t, 40))
 		c->n_threads = g->n_lps + 1 + t_choice(t, 3) > 8 ? 8 : g->n_lps + 1 + t_choice(t, 3); /* more threads than LPs */
@@ -174,6 +175,12 @@ static void decode_cfg(struct tape *t, struct rt_cfg *c, const struct gm_spec *g
 	                             : 0;
 	c->sched.clock_div = (unsigned[]){4, 1, 16, 64}[t_choice(t, 4)];
 	c->sched.batch = (unsigned[]){0, 8, 1, 0, 3, 24, 0, 2}[t_choice(t, 8)];
+	if(!strcmp(PROP, "C03") || !strcmp(PROP, "C04") || !strcmp(PROP, "C20") || !strcmp(PROP, "C13")) {
+		/* history oracles need many GVT rounds per run */
+		c->sched.batch = (unsigned[]){1, 2, 1, 3, 8, 2, 0, 4}[t_choice(t, 8)];
+		if(c->gvt_period > 10)
+			c->gvt_period = (unsigned[]){0, 1, 10}[t_choice(t, 3)];
+	}
 	c->sched.budget = 20000000ULL;
 	c->sched.noprogress = getenv("RSV_NOPROGRESS") ? strtoull(getenv("RSV_NOPROGRESS"), NULL, 10) : 600000ULL;
 	c->sched.free_perturb_per_1024 = (unsigned[]){0, 20, 200}[t_choice(t, 3)];
@@ -242,8 +249,8 @@ int rsv_case(const uint8_t *tape, size_t len, struct rsv_result *res)
 	res->cls[K_STOP_RUNS] = g->stop_lp >= 0;
 	res->cls[K_TT_RUNS] = c->termination_time != 0;
 
-	rsv_sample(res, "lps=%u seed=%llu time=%u la=%u zd=%u sp=%u dest=%u pl=%u rules=%u goals=[", g->n_lps, (unsigned long long)g->seed,
-	    g->time_mode, g->lookahead_mode, g->zero_delay, g->send_prob, g->dest_mode, g->payload_mode, g->n_rules);
+	rsv_sample(res, "lps=%u seed=%llu time=%u la=%u zd=%u sp=%u dest=%u pl=%u rules=%u hb=%u goals=[", g->n_lps, (unsigned long long)g->seed,
+	    g->time_mode, g->lookahead_mode, g->zero_delay, g->send_prob, g->dest_mode, g->payload_mode, g->n_rules, g->hb_scale);
 	for(unsigned i = 0; i < g->n_lps && i < 12; i++)
 		rsv_sample(res, "%s%u%s", i ? "," : "", g->goal[i], g->t0_zero[i] ? "@0" : "");
 	rsv_sample(res, "] stop=(%d,%u) | %s thr=%u ckpt=%u gvt=%u tt=%g bind=%d stats=%d seed=%llu | sched seed=%llu sw=%u burst=%u/%u hot=%#x div=%u batch=%u | ref ev=%zu",
